@@ -286,12 +286,12 @@ func (e *Engine) globalConst(ft *FT, g *ssa.Global) *T {
 				curSort = sf.Sort
 			}
 			if ok {
-				ft.fact(Eq(cur, ft.constVal(f.val).T))
+				ft.axiom(Eq(cur, ft.constVal(f.val).T))
 			}
 		}
 		if so == "Iface" {
 			// error sentinels created by errors.New / fmt.Errorf are non-nil
-			ft.fact(Not(Eq(L(name), L("nil.Iface"))))
+			ft.axiom(Not(Eq(L(name), L("nil.Iface"))))
 		}
 	}
 	return L(name)
